@@ -3611,8 +3611,12 @@ RCP<const Basic> max(const vec_basic &arg)
         }
     }
 
-    if (number_set)
+    if (number_set) {
+        // oo dominates whatever the position it was met at
+        if (eq(*max_number, *Inf))
+            return Inf;
         new_args.insert(max_number);
+    }
 
     vec_basic final_args(new_args.size());
     std::copy(new_args.begin(), new_args.end(), final_args.begin());
@@ -3715,8 +3719,12 @@ RCP<const Basic> min(const vec_basic &arg)
         }
     }
 
-    if (number_set)
+    if (number_set) {
+        // -oo dominates whatever the position it was met at
+        if (eq(*min_number, *NegInf))
+            return NegInf;
         new_args.insert(min_number);
+    }
 
     vec_basic final_args(new_args.size());
     std::copy(new_args.begin(), new_args.end(), final_args.begin());
